@@ -198,6 +198,11 @@ def tiered_ranges(numtype, intsize, signed, start, end, shift_step,
         if endexcl:
             end -= 1
 
+    if start > end:
+        # The interval is empty (e.g. an exclusive bound at the edge of the
+        # domain): there is nothing to match
+        return ()
+
     if not shift_step:
         return ((start, end, 0),)
 
